@@ -17,6 +17,8 @@ import (
 
 	"github.com/graphql-go/graphql"
 	"github.com/graphql-go/graphql/gqlerrors"
+	"github.com/graphql-go/graphql/language/location"
+	"github.com/graphql-go/graphql/language/source"
 
 	"verif/h/bridge"
 	"verif/h/core"
@@ -154,12 +156,27 @@ func judgeSyntax(text []byte) (bad, fid string, judged bool) {
 	if !ok {
 		return "syntax error without a location: " + firstLine(perr.Error()), "", true
 	}
+	// known: code-point offsets of Name tokens (C03-F2). Attributed only when the library's
+	// own offset-to-location function, applied to the offset the emulation of that defect
+	// predicts, gives exactly the reported location.
+	runeNames := func() string {
+		if !hasMultiByte(orig) {
+			return ""
+		}
+		if _, eerr := msyntax.ParseEmuRuneNames(orig); eerr != nil {
+			l := location.GetLocation(source.NewSource(&source.Source{Body: orig}), eerr.Pos)
+			if l.Line == line && l.Column == col {
+				return "C03-F2"
+			}
+		}
+		return ""
+	}
 	if line < 1 || col < 1 {
-		return fmt.Sprintf("location %d:%d is not 1-based", line, col), "", true
+		return fmt.Sprintf("location %d:%d is not 1-based", line, col), runeNames(), true
 	}
 	nl := 1 + strings.Count(strings.ReplaceAll(string(orig), "\r\n", "\n"), "\n") + strings.Count(strings.ReplaceAll(string(orig), "\r\n", ""), "\r")
 	if line > nl {
-		return fmt.Sprintf("location %d:%d lies outside the text (%d lines)", line, col, nl), "", true
+		return fmt.Sprintf("location %d:%d lies outside the text (%d lines)", line, col, nl), runeNames(), true
 	}
 	from, to := merr.Pos, merr.End
 	if merr.From > 0 && merr.From < from {
@@ -188,6 +205,8 @@ func judgeSyntax(text []byte) (bad, fid string, judged bool) {
 		// emulation reproduces the reported offset
 		if _, eerr := msyntax.ParseEmuRuneNames(orig); eerr != nil && within(orig, eerr.Pos, eerr.Pos+1, line, col) {
 			fid = "C03-F2"
+		} else {
+			fid = runeNames()
 		}
 	}
 	return bad, fid, true
@@ -270,6 +289,10 @@ func run(c *core.Ctx) {
 	}
 	maxGapDevs := c.Pick(1, 2)
 	c.R.Bounds["non_default_gaps"] = maxGapDevs
+	const twoGapTokens = 5 // pairs of non-default gaps only in texts of up to 5 tokens
+	if maxGapDevs >= 2 {
+		c.R.Bounds["two_gap_layouts_up_to_tokens"] = twoGapTokens
+	}
 	judge := func(kind string, text []byte) {
 		bad, fid, judged := judgeSyntax(text)
 		if !judged {
@@ -317,7 +340,7 @@ func run(c *core.Ctx) {
 						for k := 1; k < len(gaps); k++ {
 							gi[p] = k
 							judge("layout", []byte(render(toks, gi)))
-							if maxGapDevs >= 2 {
+							if maxGapDevs >= 2 && len(toks) <= twoGapTokens {
 								for p2 := p + 1; p2 < n; p2++ {
 									for k2 := 1; k2 < len(gaps); k2 += 2 {
 										gi[p2] = k2
